@@ -562,7 +562,7 @@ func (g *Gen) spec(seed uint64, index int) Spec {
 	// collide runs: a handful of constructor texts that share a hash bucket,
 	// parsed over and over by every task under a dense schedule
 	collideVers := false
-	collide := !wide && len(sp.Ecos) > 0 && p.chance(1, 6)
+	collide := !wide && len(sp.Ecos) > 0 && p.chance(1, 4)
 	if collide {
 		e := p.n(len(sp.Ecos))
 		if cs := g.colliders(p, sp.Ecos[e].Name, false, p.rng(2, 4)); len(cs) >= 2 {
@@ -755,6 +755,9 @@ func (g *Gen) spec(seed uint64, index int) Spec {
 	if soaking {
 		nt = p.rng(5, maxTasks)
 	}
+	if collide {
+		nt = p.rng(4, maxTasks)
+	}
 	// alias opening (cold families): every task starts by constructing the
 	// spellings of one alias group, in its own order, so that the first parse
 	// of texts the library may treat as one key overlaps between tasks
@@ -767,7 +770,7 @@ func (g *Gen) spec(seed uint64, index int) Spec {
 	total := 0
 	for t := 0; t < nt; t++ {
 		n := p.rng(1, maxOps)
-		if soaking {
+		if soaking || collide {
 			n = maxOps
 		}
 		prog := make([]Op, 0, n+len(opening))
